@@ -1323,7 +1323,8 @@ def fixed_family():
     return F
 
 
-# probes of constructs on which a defect was found while building the engine; each has its own role key
+# probes of constructs on which a defect was found while building the engine (most are fixed in the
+# tree by now: they stay as regression members); each has its own role key
 DEFECT_PROBES = [
     ("json_string", "regex:json_string", {"op": "json_string"}),
     ("any", "regex:any", {"op": "any"}),
@@ -1344,8 +1345,11 @@ def random_family(seed, count, depth):
     rnd = random.Random(seed * 7919 + depth)
     small = [ord('a'), ord('b'), ord('c'), ord('0'), ord(' '), ord(',')]
 
+    rich = rich_leaves()
+    rich_names = sorted(rich)
+
     def leaf():
-        k = rnd.randrange(9)
+        k = rnd.randrange(12)
         if k == 0:
             return _b(rnd.choice(small))
         if k == 1:
@@ -1355,10 +1359,16 @@ def random_family(seed, count, depth):
         if k == 3:
             return {"op": "byte_not_from", "set": rnd.sample(small, 2)}
         if k == 4:
-            return {"op": rnd.choice(["digit", "one_blank", "blanks", "any_byte", "epsilon"])}
+            return {"op": rnd.choice(["digit", "one_blank", "blanks", "any_byte", "epsilon", "any"])}
         if k == 5:
             return _n("cat", [{"op": "any"}, _b(rnd.choice(small[:3]))])
-        return _b(*rnd.sample(small[:4], 2))
+        if k == 6:
+            return _b(*rnd.sample(small[:4], 2))
+        if k == 7:
+            # iterated random multi-byte word
+            w = _w("".join(chr(rnd.choice(small[:3])) for _ in range(rnd.randrange(2, 4))))
+            return _u(rnd.choice(["list", "non_empty_list", "optional"]), w)
+        return json.loads(json.dumps(rich[rnd.choice(rich_names)]))
 
     def gen(d):
         if d == 0 or rnd.random() < 0.15:
@@ -1411,12 +1421,7 @@ def random_family(seed, count, depth):
         if size(r) > 40:
             continue
         try:
-            p = prim(r)
-            # keep clear of the constructs with a known defect (they have their own probes) so that the
-            # random members test everything else
-            if _touches_defect(p):
-                continue
-            lower(p)
+            lower(prim(r))
         except Outside:
             continue
         out.append((f"random[d{depth},{len(out)}]", "regex:random", r))
@@ -1987,3 +1992,192 @@ def c_replay_payload(payload):
         return 1 if out.get("accepted") else 0
     finally:
         os.unlink(path)
+
+
+# ==================================================================================================
+# systematic product family: every combinator x every leaf in every operand position
+# ==================================================================================================
+
+def rich_leaves():
+    """name -> R. Besides byte classes: short words, ITERATED multi-byte words (their compiled initial
+    state lies on a cycle of length >= 2 without a self-loop), marked variants, and words sharing
+    prefixes / suffixes with one another (so that a context built from two leaves overlaps)."""
+    a, b_, c_ = _b('a'), _b('b'), _b('c')
+    ab, abc, ba = _w("ab"), _w("abc"), _w("ba")
+    mk = lambda x, by, m: _u("mark_bytes", x, set=[ord(by)], m=m)
+    L = {
+        "a": a, "[ab]": _b('a', 'b'), "[^a]": {"op": "byte_not_from", "set": [97]}, "eps": {"op": "epsilon"},
+        "ab": ab, "abc": abc, "ba": ba, "aba": _w("aba"),
+        "a*": _u("list", a), "[ab]*": _u("list", _b('a', 'b')),
+        "(ab)*": _u("list", ab), "(ab)+": _u("non_empty_list", ab), "(ab)?": _u("optional", ab),
+        "(abc)*": _u("list", abc), "(ba)*": _u("list", ba),
+        "(ab)*c": _n("cat", [_u("list", ab), c_]), "a(ba)*": _n("cat", [a, _u("list", ba)]),
+        "(ab|a)*": _u("list", _bin("or", ab, a)),
+        "(a[b:2])*": _u("list", _n("cat", [a, mk(b_, 'b', 2)])),
+        "([a:1]b)+": _u("non_empty_list", _n("cat", [mk(a, 'a', 1), b_])),
+        "(ab)*[c:1]": _n("cat", [_u("list", ab), mk(c_, 'c', 1)]),
+    }
+    return L
+
+
+REDUCED = ["a", "ab", "a*", "(ab)*", "(ab)+", "(ab)?", "(abc)*", "(ba)*", "(ab)*c", "(a[b:2])*", "(ab)*[c:1]"]
+TRIPLE = ["a", "ab", "a*", "(ab)*", "(ab)?", "(ab)*c"]
+UNARY_OPS = ["neg", "list", "non_empty_list", "optional", "spaced_list", "spaced_non_empty_list"]
+UNARY_N_OPS = ["repeat", "repeat_at_most", "spaced_repeat", "spaced_repeat_at_most"]
+BINARY_OPS = ["or", "and", "minus", "terminated", "spaced_terminated"]
+SEP_OPS = ["separated_list", "separated_non_empty_list", "spaced_separated_list", "spaced_separated_non_empty_list"]
+SEP_N_OPS = ["separated_repeat", "separated_repeat_at_most", "spaced_separated_repeat", "spaced_separated_repeat_at_most"]
+
+
+def product_candidates(tier):
+    """(id, key, R) before deduplication."""
+    L = rich_leaves()
+    full = list(L)
+    red = REDUCED if tier == "quick" else REDUCED + ["[ab]*", "a(ba)*", "(ab|a)*", "([a:1]b)+"]
+    tri = TRIPLE if tier == "quick" else REDUCED[:8]
+    out = []
+    add = lambda op, names, r: out.append((f"prod/{op}({','.join(names)})", f"regex:{op}", r))
+    for x in full:
+        for op in UNARY_OPS:
+            add(op, [x], _u(op, L[x]))
+        for op in UNARY_N_OPS:
+            for n in ((2,) if tier == "quick" else (2, 3)):
+                add(f"{op}{n}", [x], _u(op, L[x], n=n))
+        add("mark_bytes", [x], _u("mark_bytes", L[x], set=[98], m=3))
+        add("replace_markers", [x], _u("replace_markers", L[x], map=[[0, 1], [2, 0]]))
+    for x in red:
+        for y in red:
+            for op in BINARY_OPS:
+                add(op, [x, y], _bin(op, L[x], L[y]))
+            for op in SEP_OPS:
+                add(op, [x, y], _u(op, L[x], sep=L[y]))
+            for op in SEP_N_OPS:
+                add(f"{op}2", [x, y], _u(op, L[x], n=2, sep=L[y]))
+            add("delimited", [x, y], {"op": "delimited", "x": L[x], "open": L[y], "close": L[y]})
+            add("spaced_delimited", [x, y], {"op": "spaced_delimited", "x": L[x], "open": L[y], "close": L[y]})
+    for x in tri:
+        for y in tri:
+            for z in tri:
+                add("cat", [x, y, z], _n("cat", [L[x], L[y], L[z]]))
+                add("union", [x, y, z], _n("union", [L[x], L[y], L[z]]))
+    for x in tri:
+        for y in tri:
+            add("spaced_cat", [x, y], _n("spaced_cat", [L[x], L[y]]))
+            for z in ("a", "(ab)*"):
+                add("separated_cat", [x, y, "sep=" + z], _n("separated_cat", [L[x], L[y]], sep=L[z]))
+                add("spaced_separated_cat", [x, y, "sep=" + z], _n("spaced_separated_cat", [L[x], L[y]], sep=L[z]))
+    return out
+
+
+def canon_core(c):
+    """semantics-preserving normal form used ONLY as a deduplication key: nested cat / alt / and
+    flattened, eps dropped from cat, alt / and operands sorted and deduplicated."""
+    t = c[0]
+    if t in ('set', 'eps'):
+        return c
+    if t == 'plus':
+        return ('plus', canon_core(c[1]))
+    if t == 'all':
+        return c
+    if t == 'comp':
+        return ('comp', canon_core(c[1]), c[2])
+    xs = []
+    for x in c[1]:
+        x = canon_core(x)
+        if x[0] == t:
+            xs.extend(x[1])
+        else:
+            xs.append(x)
+    if t == 'cat':
+        xs = [x for x in xs if x != ('eps',)]
+        if not xs:
+            return ('eps',)
+        return xs[0] if len(xs) == 1 else ('cat', tuple(xs))
+    xs = sorted(set(xs), key=repr)
+    return xs[0] if len(xs) == 1 else (t, tuple(xs))
+
+
+def canon_automaton(d):
+    """dump renumbered by breadth-first traversal from the initial state (unreachable states dropped)."""
+    tr = {}
+    for s, b, t, m in d["transitions"]:
+        tr.setdefault(s, []).append((b, t, m))
+    num = {d["initial_state"]: 0}
+    order = [d["initial_state"]]
+    i = 0
+    while i < len(order):
+        s = order[i]
+        i += 1
+        for b, t, m in sorted(tr.get(s, [])):
+            if t not in num:
+                num[t] = len(num)
+                order.append(t)
+    rows = tuple(sorted((num[s], b, num[t], m) for s in order for b, t, m in tr.get(s, [])))
+    fin = tuple(sorted(num[f] for f in d["final_states"] if f in num))
+    return (rows, fin)
+
+
+def product_family(tier, compile_timeout=20):
+    """candidates -> compiled -> deduplicated. Two candidates whose reference language has the same
+    normal form AND whose compiled automata are equal up to state renaming pose literally the same
+    question; only the first is kept (its id lists how many it stands for).
+    -> (members [(id, key, R)], comps {id: result}, stats)"""
+    cands = []
+    outside = 0
+    for i, k, r in product_candidates(tier) + (depth2_candidates() if tier != "quick" else []):
+        try:
+            c = canon_core(core_of(r))
+        except Outside:
+            outside += 1
+            continue
+        cands.append((i, k, r, c))
+    comps = ax_compile([(i, r) for i, k, r, c in cands], timeout=compile_timeout, workers=8)
+    seen = {}
+    members = []
+    for i, k, r, c in cands:
+        comp = comps[i]
+        if comp.get("ok"):
+            key = (c, canon_automaton(comp["automaton"]))
+        else:
+            key = (c, (comp.get("panic") or comp.get("error") or "timeout")[:60])
+        if key in seen:
+            seen[key].append(i)
+            continue
+        seen[key] = [i]
+        members.append((i, k, r))
+    stats = dict(candidates=len(cands) + outside, outside=outside, distinct=len(members))
+    return members, {i: comps[i] for i, _, _ in members}, stats
+
+
+def depth2_candidates():
+    """thorough tier: op1(op2(W), X) and op1(X, op2(W)) for every pair of combinators, W an iterated
+    multi-byte word, X a small context leaf."""
+    L = rich_leaves()
+    Ws = ["(ab)*", "(ab)+", "(ab)*c", "(a[b:2])*"]
+    Xs = ["a", "ab", "(ab)*"]
+    inner = [(op, lambda w, op=op: _u(op, w)) for op in UNARY_OPS if op != "neg"] + \
+            [(f"{op}2", lambda w, op=op: _u(op, w, n=2)) for op in UNARY_N_OPS] + \
+            [("sep_list_a", lambda w: _u("separated_list", w, sep=_b('a'))), ("as_sep", lambda w: _u("separated_list", _b('a'), sep=w))]
+    out = []
+    for wn in Ws:
+        for iname, f in inner:
+            g = f(L[wn])
+            gname = f"{iname}({wn})"
+            for op in UNARY_OPS:
+                out.append((f"d2/{op}({gname})", f"regex:{op}", _u(op, g)))
+            for op in UNARY_N_OPS:
+                out.append((f"d2/{op}2({gname})", f"regex:{op}", _u(op, g, n=2)))
+            for xn in Xs:
+                x = L[xn]
+                for op in BINARY_OPS:
+                    out.append((f"d2/{op}({gname},{xn})", f"regex:{op}", _bin(op, g, x)))
+                    out.append((f"d2/{op}({xn},{gname})", f"regex:{op}", _bin(op, x, g)))
+                for op in SEP_OPS:
+                    out.append((f"d2/{op}({gname},{xn})", f"regex:{op}", _u(op, g, sep=x)))
+                    out.append((f"d2/{op}({xn},{gname})", f"regex:{op}", _u(op, x, sep=g)))
+                for op in SEP_N_OPS:
+                    out.append((f"d2/{op}2({gname},{xn})", f"regex:{op}", _u(op, g, n=2, sep=x)))
+                    out.append((f"d2/{op}2({xn},{gname})", f"regex:{op}", _u(op, x, n=2, sep=g)))
+                out.append((f"d2/delimited({gname},{xn})", "regex:delimited", {"op": "delimited", "x": g, "open": x, "close": x}))
+                out.append((f"d2/delimited({xn},{gname})", "regex:delimited", {"op": "delimited", "x": x, "open": g, "close": g}))
+    return out
